@@ -98,6 +98,28 @@ def compare(m, c, version, viol, label):
             if not close(e[3], w['r'], 1e-7):
                 viol.append(('WIRE-RADIUS', '%s: wire %d radius %r written as %r' % (label, i + 1, e[3], w['r'])))
                 break
+    # BASIC semantics of the written coordinates: an end is grounded iff z == 0 exactly, two ends are joined iff their
+    # coordinates are equal; what the model joined / grounded (by tolerance) must be written exactly so, and nothing else
+    if len(exp) == len(c['wires']) and exp:
+        k = 0
+        oends = []          # (object index, end, written coordinates, grounded in the model, consolidated model end)
+        for gi, g in enumerate(m.geo):
+            ne = g.n_emulated_wires
+            first, last = c['wires'][k], c['wires'][k + ne - 1]
+            k += ne
+            for e, w, key in ((0, first, 'p1'), (1, last, 'p2')):
+                oends.append((gi, e, np.array(w[key]), bool(g.is_ground[e]), m.endpoint(g.endpoints[e])))
+        for gi, e, p, gnd, cons in oends:
+            if m.media is not None and gnd != (p[2] == 0.0):
+                viol.append(('BASIC-GROUND', '%s: object %d end %d is %sgrounded in the model but written with z=%r (BASIC grounds exactly z = 0)'
+                             % (label, gi + 1, e + 1, '' if gnd else 'not ', p[2])))
+                break
+        for (gi, e, p, gnd, cons), (gj, f_, q, gnd2, cons2) in itertools.combinations(oends, 2):
+            joined = (not gnd and not gnd2 and tuple(cons) == tuple(cons2))
+            if joined != bool((p == q).all()) and not (gnd and gnd2):
+                viol.append(('BASIC-JOIN', '%s: object %d end %d and object %d end %d are %sjoined in the model but written as %s / %s'
+                             % (label, gi + 1, e + 1, gj + 1, f_ + 1, '' if joined else 'not ', p, q)))
+                break
     # sources
     if len(m.sources) != len(c['sources']):
         viol.append(('SOURCE-COUNT', '%s: %d sources, %d written' % (label, len(m.sources), len(c['sources']))))
